@@ -1,4 +1,5 @@
 pub mod c08;
+pub mod c10;
 pub mod c11;
 pub mod c12;
 pub mod c16;
@@ -13,6 +14,7 @@ pub fn engine_for(id: &str) -> Option<Box<dyn PropEngine>> {
         "C05" => Some(Box::new(forest_props::ForestEngine::c05())),
         "C06" => Some(Box::new(forest_props::ForestEngine::c06())),
         "C08" => Some(Box::new(c08::C08Engine)),
+        "C10" => Some(Box::new(c10::engine())),
         "C11" => Some(Box::new(c11::engine())),
         "C12" => Some(Box::new(c12::engine())),
         "C16" => Some(Box::new(c16::C16Engine)),
@@ -21,4 +23,4 @@ pub fn engine_for(id: &str) -> Option<Box<dyn PropEngine>> {
     }
 }
 
-pub const CLAIMED: [&str; 8] = ["C04", "C05", "C06", "C08", "C11", "C12", "C16", "C20"];
+pub const CLAIMED: [&str; 9] = ["C04", "C05", "C06", "C08", "C10", "C11", "C12", "C16", "C20"];
